@@ -203,8 +203,13 @@ impl<'a> Gen<'a> {
             0..=3 => {
                 let (main, sub, file) = self.target();
                 self.ensure_folder(sub, out);
-                let blocks = if self.r.chance(1, 10) { self.r.range(100, 600) } else { self.r.range(1, 10) };
+                let mut blocks = if self.r.chance(1, 10) { self.r.range(100, 600) } else { self.r.range(1, 10) };
                 let delete_blocks = if self.r.chance(1, 3) { 0 } else { self.count() };
+                if delete_blocks > 0 && self.r.chance(1, 8) {
+                    // an `A` that carries no data and only clears: the blocks to clear start at
+                    // the stated offset all the same
+                    blocks = 0;
+                }
                 Chunk::AddData {
                     main,
                     sub,
@@ -263,6 +268,9 @@ impl<'a> Gen<'a> {
                     let folder = path.split('/').nth(1).unwrap().to_string();
                     self.missing_folders.retain(|f| *f != folder);
                 }
+                // a path may be written with a leading slash (or two): it still names a place
+                // under the directory that is being patched
+                let path = if self.r.chance(1, 16) { format!("{}{}", self.r.pick(&["/", "//"]), path) } else { path };
                 Chunk::AddFile { path, offset, expansion: 0, blocks: file_blocks(self.r, total) }
             }
             14 | 15 => {
@@ -288,6 +296,7 @@ impl<'a> Gen<'a> {
                 if self.model.dirs.contains(&path) || !self.path_ok_for_file(&path) && !self.model.files.contains_key(&path) {
                     return;
                 }
+                let path = if self.r.chance(1, 16) { format!("/{}", path) } else { path };
                 Chunk::DeleteFile { path, expansion: 0 }
             }
             16 => {
@@ -1245,6 +1254,8 @@ pub fn why_not(b: &C03Doc) -> Option<String> {
                     }
                 }
                 Chunk::AddFile { path, .. } => {
+                    // leading slashes are allowed: the path still names a place under the target
+                    let path = path.trim_start_matches('/');
                     if !path_ok(&model, path) {
                         return Some(format!("chunk {} {:?}", i, c));
                     }
@@ -1259,6 +1270,7 @@ pub fn why_not(b: &C03Doc) -> Option<String> {
                     }
                 }
                 Chunk::DeleteFile { path, .. } => {
+                    let path = path.trim_start_matches('/');
                     if !model.files.contains_key(path) {
                         if !path_ok(&model, path) {
                             return Some(format!("chunk {} {:?}", i, c));
